@@ -455,6 +455,13 @@ def scale_raw(raw_val, shift):
     if shift > 0 and isinstance(raw_val, (np.ndarray, np.generic)) and raw_val.dtype.kind in 'iu' and raw_val.size > 0:
         if max(int(np.max(raw_val)), -int(np.min(raw_val))).bit_length() + shift >= 63:
             raw_val = np.asarray(raw_val).astype(object)
+    elif shift < 0 and isinstance(raw_val, (np.ndarray, np.generic)) and raw_val.dtype.kind in 'iuO' and raw_val.size > 0 \
+        and all(isinstance(v, (int, np.integer)) for v in np.asarray(raw_val).flatten()[:1]):
+        if max(abs(int(v)) for v in np.asarray(raw_val).flatten()).bit_length() > 53:
+            # codes with more significant bits than a float holds lose fraction bits: they are handed over as exact rationals,
+            # so that the store rounds the exact value (the float factor 2**shift would round them to 53 bits first)
+            from fractions import Fraction
+            return np.array(np.asarray(raw_val).astype(object) * Fraction(1, 1 << -shift), dtype=object)
     return raw_val * 2**shift
 
 def get_sizes_from_dtype(dtype):
